@@ -243,15 +243,14 @@ class Idem(object):
       return ((True if (k.tag == "int" and k.short) else None), k, k)
     return (None, k, k)
 
+  def _norm(self, x):
+    """Text of x with single-assignment locals inlined (the argument itself is kept)."""
+    return text(self.du.inline(x, stop=(self.p,))).replace(" ", "")
+
   def _is_int_of_arg(self, x):
-    """x is the argument itself or int(arg) / int(float(arg)), possibly through a local."""
+    """x is the argument itself or int(arg) / int(float(arg)), possibly through locals."""
     forms = (self.p, "int(%s)" % self.p, "int(float(%s))" % self.p)
-    if text(x).replace(" ", "") in forms:
-      return True
-    if isinstance(x, ast.Name):
-      vals = self.du.values_of(x.id)
-      return bool(vals) and all(text(v).replace(" ", "") in forms for v in vals)
-    return False
+    return self._norm(x) in forms
 
   def _truthy(self, k):
     if k.tag == "none":
@@ -414,15 +413,9 @@ class Idem(object):
     on_arg = src is not None and text(src) == self.p
     if r.tag == "float" and k.tag in NUM and on_arg:
       return "same"
-    if r.tag == "int" and k.tag == "int" and (on_arg or text(e).replace(" ", "") in
-                                                ("int(float(%s))" % self.p,)):
+    if r.tag == "int" and k.tag == "int" and self._norm(e) in ("int(%s)" % self.p,
+                                                                "int(float(%s))" % self.p):
       return "same"
-    if r.tag == "int" and k.tag == "int":
-      # ret = int(float(value)) ... return ret
-      vals = self.du.values_of(e.id) if isinstance(e, ast.Name) else None
-      if vals and all(text(v).replace(" ", "") in ("int(float(%s))" % self.p, "int(%s)" % self.p)
-                      for v in vals):
-        return "same"
     if r.tag == "str" and k.tag == "str" and on_arg:
       return "same"
     if r.tag in ("tuple", "list") and k.tag in CONTAINERS and r.elem is not None and \
